@@ -46,7 +46,11 @@ prop = Prop(
         "an invalidated path, or a relation between two valid facts with different (location, path); distinct by "
         "the whole case. exhaustive-small: every op sequence of length 5 over the sibling-locations alphabet and of "
         "length 4 over the container alphabet (thorough: lengths 6 and 5, plus a symlink/local alphabet of length 5), all involved paths "
-        "queried after every op; non-trivial by the same rule, counted per history."
+        "queried after every op; non-trivial by the same rule, counted per history. transfer-window: the registry steps of transfer_data (destination put as "
+        "PRIMARY and not available, related to the source when read-only; afterwards re-typed PRIMARY / SYMBOLIC_LINK or "
+        "left INVALID, related to the wrapped inner path, set available) around a window in which 1..4 "
+        "get_source_location tasks start at drawn points between 0..4 other history ops and an optional invalidation; "
+        "non-trivial = a lookup that was blocked on the in-flight destination and the destination did not end PRIMARY."
     ),
     level_text=(
         "Random search over histories plus certainty inside the enumerated op alphabets; the oracle is an "
@@ -917,12 +921,14 @@ async def check_window(case, rec):
 
         # --- transfer_data, after the copy
         link = bool(case["link"]) and dst_lk == src_lk
+        resurrected = False
         if not case["writable"]:
             new_type = "SYMBOLIC_LINK" if link else "PRIMARY"
             dst_obj.data_type = DataType[new_type]
             f = m.cur.get((dst_lk, dst_path))
-            if f is None:  # invalidated during the copy: the finished transfer states it again
-                f = m.register_one(dst_lk, dst_path, new_type)
+            resurrected = f is None or f.state != "V"
+            if f is None:  # invalidated during the copy: the finished transfer states the path (only it) again
+                f = m._touch(dst_lk, dst_path, new_type, True)
             else:
                 f.state, f.types = "V", {new_type}
         it.log.append(f"transfer_data ends: {dst_lk}:{dst_path} is {dst_obj.data_type.name}, available")
@@ -952,7 +958,14 @@ async def check_window(case, rec):
                 if not lk[0].done():
                     raise Violation("C21:source:window:lookup-pending-after-every-candidate-settled", f"get_source_location({lk[1]!r},{lk[2]!r}) still pending. {it.ctxmsg()}")
                 judge(lk, "blocked-until-transfer-end")
-        it.check_all()
+        try:
+            it.check_all()
+        except Violation as v:
+            if v.kind == "C21:answer:duplicate" and resurrected:
+                # the INVALID flag set during the copy is overwritten by the re-typing; the relations registered
+                # meanwhile / afterwards hang the same object a second time where its path had been discarded
+                raise Violation("C21:transfer-window:destination-invalidated-during-read-only-copy-is-resurrected-and-reported-twice", v.message) from None
+            raise
         for path in (dst_path, src_path):
             for dep in deps:
                 await it.check_source(path, dep)
